@@ -19,8 +19,20 @@ type verifDAG struct {
 	all    []*Event
 }
 
+// verifDAGOnBadger: build the pre-state on a Badger-backed store with a cache of
+// ONE event (every older event is evicted from the cache and, beyond two per
+// creator, from the in-memory window) instead of the in-memory store.
+var verifDAGOnBadger bool
+
 func verifBuildDAG(kA, kB int) *verifDAG {
 	d := &verifDAG{vn: verifNewNet(2, 100)}
+	if verifDAGOnBadger {
+		bst, err := NewBadgerStore(1, verifTempDir("c07badger"), false, nil)
+		if err != nil {
+			panic(err)
+		}
+		d.vn = verifNewNetOnStore(2, bst)
+	}
 	k := [2]int{kA, kB}
 	// interleave: A0 B0 A1 B1 ...
 	for lvl := 0; lvl < 4; lvl++ {
@@ -146,9 +158,21 @@ func VerifHarness_C07_O1() {
 	selfParent, _ := d.parentChoice("selfParent")
 	otherParent, otherKnown := d.parentChoice("otherParent")
 	index := verifNondetInt("index")
+	if verifDAGOnBadger {
+		// database keys are formatted from the index: a shape case here (one
+		// below / at / one above the creator's height), not a symbolic value
+		hgt := 0
+		if creator < 2 {
+			hgt = len(d.chains[creator])
+		}
+		index = hgt - 1 + verifChoice("indexOffset", 3)
+	}
 	sigOK := verifNondetBool("sigOK")
-	signer := verifChoice("signer", 2) // 0: the stated creator's key, 1: somebody else's key
-	withItx := verifChoice("itx", 2)
+	signer, withItx := 0, 0
+	if !verifDAGOnBadger {
+		signer = verifChoice("signer", 2) // 0: the stated creator's key, 1: somebody else's key
+		withItx = verifChoice("itx", 2)
+	}
 	itxOK := true
 
 	var creatorPub []byte
@@ -425,4 +449,15 @@ func VerifHarness_C07_O4() {
 		verifAssert("tampered-event-not-stored-under-the-original-hash", gerr != nil)
 	}
 	verifReach("end")
+}
+
+// C07/O1b — the admission filter on a Badger-backed store whose cache holds ONE
+// event: parents and ancestors of the candidate have left the cache (and, for
+// the longer chains, their creator's in-memory window) and are read back from
+// the database.  Same oracle as O1: what is admitted, and that a refused event
+// leaves no trace.
+func VerifHarness_C07_O1b() {
+	verifDAGOnBadger = true
+	defer func() { verifDAGOnBadger = false }()
+	VerifHarness_C07_O1()
 }
